@@ -15,6 +15,11 @@ CHECKS = {
    text="Every subset (all arrival orders merged and cross-compared) of 12-14 adversarial coupons is applied to real Hll4/Hll6/Hll8 sketches from up to 7 start states per scope (lg_k 4,7,8,9), every ordered sequence to depth 4-6 without merging, and every single (lg_k 4: double) deviation on three default runs per lg_k (4..10 quick, ..21 thorough); after every step the hook dump must equal the reference (coupon set / per-slot maximum, Array4 cur_min/num_at_cur_min/aux bookkeeping, exact kxq), duplicates must be no-ops and the three types must report bit-identical estimates and bounds.",
    note="Coupons are injected through the add-only hook (values 1..=63); C16 ties items to coupons. Alphabets and default runs are fixed and listed in the evidence; large lg_k only as default runs.",
    design="3/C02"),
+ "C05": dict(
+   technique="deviation-bounded exhaustive enumeration over complete sketch lives (all pairs, window offsets 0..56) + explicit-state BFS around every flavor change/window move, real sketch vs bit-matrix reference",
+   text="Four default orders of ALL k*64 pairs (up to the cap just below a 57th window move) are run on the real sketch with every single deviation (pairs at the window edges, early zone, late zone, col 63, duplicates) inserted at every listed position (lg_k=4: every 8th/1st position quick/thorough, double deviations on a grid; lg_k 5..8 quick, ..12 + spot 21/26 thorough), and a BFS to depth 4-5 over 12 window-straddling pairs starts from every prefix within 3 coupons of a flavor change or window move. After every step: num_coupons==popcount, hook matrix==model, validate(), offset/flavor from thresholds, columns below first_interesting_column all ones, kxp==exact unset-probability mass, hip==sum k/kxp, duplicates are no-ops.",
+   note="Pairs are injected through the add-only hook; model precondition: no new pair at C=ceil(59.375K)-1. kxp/hip are compared with exact 128-bit arithmetic within an f64-rounding error bound.",
+   design="3/C05"),
 }
 NOT_BUILT = "check not built yet in this session (planned in DESIGN.md section 3); not claimed until it exists"
 def main():
